@@ -378,3 +378,64 @@ Proof.
            c c' o disk st st' Hs Hs' Hp Hf Hsub H1 H2); auto.
   intros T st0 v. apply rest_cmd_sim.
 Qed.
+
+(* ---------------------------------------------------------------- generators that never feed a source back *)
+(* When MakeData never reports stale (new without -getset, enum, rest, map) the overlay stays empty: every type of the run
+   is analysed against the directory as it was found.  The run then equals the run of the generator whose view is pinned
+   to that directory, which is blind by construction -- so the permutation theorem holds without any guard on embedding or
+   on what the generator reads from generated files. *)
+Section NoStale.
+  Context {St Data : Type}.
+  Variable mk : cmd -> St -> pview -> string -> mres Data St.
+  Variable render : St -> Data -> afile.
+  Hypothesis Hmake : forall c st1 st2 v T, same_out render (mk c st1 v T) (mk c st2 v T).
+  Variable hw : list hfile.
+  Variable disk : gfiles.
+
+  Definition pinned (c : cmd) : St -> pview -> string -> mres Data St :=
+    fun st _ T => mk c st (pview_of (mk_view hw disk [])) T.
+
+  Lemma pinned_same_out : forall c st1 st2 v T, same_out render (pinned c st1 v T) (pinned c st2 v T).
+  Proof. intros. unfold pinned. apply Hmake. Qed.
+
+  Lemma pinned_blind : forall c H, blind_at H (pinned c).
+  Proof. intros c H st v v' T _ _. reflexivity. Qed.
+
+  Lemma gen_loop_pinned : forall c, (forall st v T d s st', mk c st v T = MOk d s st' -> s = false) ->
+    forall types fmap st sm sl,
+      gen_loop (mk c) render c hw disk types fmap st [] sm sl = gen_loop (pinned c) render c hw disk types fmap st [] sm sl.
+  Proof.
+    intros c Hns. induction types as [|T r IH]; intros fmap st sm sl; cbn [gen_loop]; auto.
+    unfold pinned at 1.
+    destruct (mk c st (pview_of (mk_view hw disk [])) T) as [d s st'|st'|] eqn:E; auto.
+    rewrite (Hns _ _ _ _ _ _ E). cbn [andb].
+    destruct (separate c); [destruct (ahas _ sm); auto|]; apply IH.
+  Qed.
+
+  Lemma generate_pinned : forall c lt o st, (forall st v T d s st', mk c st v T = MOk d s st' -> s = false) ->
+    generate (mk c) render lt c o hw disk st = generate (pinned c) render lt c o hw disk st.
+  Proof.
+    intros c lt o st Hns. unfold generate.
+    destruct (confirm_types lt c o (mk_view hw disk [])) as [[types fmap]|]; auto.
+    rewrite (gen_loop_pinned c Hns). reflexivity.
+  Qed.
+
+  Theorem permutation_nostale : forall lt c c' o st st',
+    (forall st v T d s st', mk c st v T = MOk d s st' -> s = false) ->
+    (forall st v T d s st', mk c' st v T = MOk d s st' -> s = false) ->
+    specified c = true -> specified c' = true ->
+    Permutation (c_types c) (c_types c') -> c_file c = c_file c' -> c_sub c = c_sub c' ->
+    c_star c = false -> c_star c' = false ->
+    (forall T st0 v, same_body render render (mk c st0 v T) (mk c' st0 v T)) ->
+    match generate (mk c) render lt c o hw disk st, generate (mk c') render lt c' o hw disk st' with
+    | Some sm, Some sm' => map nb (listing sm) = map nb (listing sm')
+    | None, None => True
+    | _, _ => False
+    end.
+  Proof.
+    intros lt c c' o st st' Hn Hn' Hs Hs' Hp Hf Hsub H1 H2 Hsim.
+    rewrite (generate_pinned c lt o st Hn), (generate_pinned c' lt o st' Hn').
+    apply (permutation_changes_no_content pinned render pinned_same_out hw (fun c0 => pinned_blind c0 _) lt c c' o disk st st'); auto.
+    intros T st0 v. unfold pinned. apply Hsim.
+  Qed.
+End NoStale.
